@@ -24,7 +24,8 @@ RULE = ('Histories: a pool of 90 scenarios (sharing their table objects) (every 
         'threads under a cooperative scheduler that switches only at get_record (input and join table) / write / set_header / finish; every interleaving is enumerated by '
         're-execution (depth-first over the binary choice points) - tables of 2 records (quick), 3 and 4 records (thorough); both results must equal the run-alone results. '
         'Non-trivial = a history containing a failing query followed by a succeeding one of the same kind; an interleaving with a switch while both queries are mid-flight. '
-        'Enumerated pairs / interleavings are distinct by construction.')
+        'Enumerated pairs / interleavings are distinct by construction.'
+        ' Later additions (pool now 90 scenarios): value-class aggregates, fails-midway scenarios per writer kind, same select text under different heads, user_init_code, a long-lived sqlite connection, colorized CSV output, interleaved JOIN pairs of different key arity.')
 ASSUMPTIONS = ['only the cooperative switch points the property names are explored; byte-code-level pre-emption is not', "rbql-js's module-global context is a documented limitation and not claimed"]
 
 T1 = [['a', '1', 'x,y'], ['b', '2', 'z'], ['a', '3', 'x'], ['c', '10', ''], ['b', '5', 'y,y']]
